@@ -1,6 +1,6 @@
 """C01 - scalar lookups return exactly the shipped table value, or an error (exhaustive offline value checker)."""
 import numpy as np
-from .. import common, refdata, execlib
+from .. import common, refdata, execlib, build
 
 CK_MAP = {'F12': 'FL12', 'F13': 'FL13', 'FP13': 'FLP13', 'F23': 'FL23'}
 LINE_GROUPS = ['KA', 'KB', 'LA', 'LB', 'L1N67', 'L1O45', 'L1P23', 'L2P23', 'L3O45', 'L3P23', 'L3P45', 'KO', 'KP']
@@ -64,6 +64,22 @@ def sweep(ck, L, fname, exp, Zs, macs, st, two_args=True, skip=()):
                          '%s called directly from optimised user code gives %r / error seen: %s; through the dispatch table %r / error: %s' % (
                              fname, float(r3.v[k]), bool(r3.status[k] & 1), float(r.v[k]), r.msg(k) if r.err[k] else 'none'),
                          dict(call='%s(%d,%d)' % (fname, ZZ[k], MM[k]) if two_args else '%s(%d)' % (fname, ZZ[k]), config=L.config))
+        # the library as the project's own build makes it (meson), inside a host program whose own globals carry the names of the library's
+        # internal tables and helpers (build.hostile_host): the tables the calls read are the library's own, so the bits are the same
+        try:
+            L4 = execlib.Lib(L.config, 'meson', env={'LD_PRELOAD': build.hostile_host(L.config)['so']})
+            r4 = L4.call(fname, ZZ, MM) if two_args else L4.call(fname, ZZ)
+            st['calls'] += len(ZZ)
+            st['calls_in_the_project_build_inside_a_hostile_host'] = st.get('calls_in_the_project_build_inside_a_hostile_host', 0) + len(ZZ)
+            bad = np.nonzero((r4.v.view('u8') != r.v.view('u8')) | (r4.status != r.status))[0]
+            for k in bad[:2]:
+                ck.violation('c01:%s:project-build-in-a-host-with-same-named-globals-differs' % fname,
+                             '%s gives %r (status %d) in the meson-built library loaded into a program that defines globals named like the library\'s internal tables, %r (status %d) otherwise' % (
+                                 fname, float(r4.v[k]), int(r4.status[k]), float(r.v[k]), int(r.status[k])),
+                             dict(call='%s(%d,%d)' % (fname, ZZ[k], MM[k]) if two_args else '%s(%d)' % (fname, ZZ[k]), config=L.config, build='meson'))
+        except execlib.ExecCrash as ex:
+            ck.violation('c01:%s:project-build-in-a-host-with-same-named-globals-dies' % fname, '%s kills the process (rc %d) in the meson-built library loaded into a program that defines globals named like the '
+                         'library\'s internals: %s' % (fname, ex.rc, ex.tail[-200:]), dict(function=fname, config=L.config, build='meson'))
     ref = np.array([exp.get((int(z), int(m)) if two_args else int(z), np.nan) for z, m in zip(ZZ, MM)])
     has = ~np.isnan(ref) & (ZZ >= 1) & (ZZ <= 120)
     st['calls'] += len(ZZ)
